@@ -20,6 +20,7 @@ pub fn dyn_replay(text: &str, sigs: &[Sig], ov: bool, script: &[Step], opts: &Ru
         "seed": opts.seed,
         "repeat_last": opts.repeat_last,
         "poke": opts.poke,
+        "stride": opts.stride,
         "extra_known": sigs_json(&opts.extra_known),
         "expected": expected,
         "observed": obs_items_brief(obs),
@@ -254,6 +255,55 @@ pub fn check_reuse_pairs(st: &mut crate::engine::Stats, order: u64, what: &str, 
                 st.violation("a loaded test behaves differently on its second use", order << 12 | (i as u64) << 6 | k as u64, summary, || reuse_replay(text, sigs, &pair, opts, &reused, &fresh));
                 return;
             }
+        }
+    }
+}
+
+
+/// A caller may advance the iterator with `nth(k)` (that is what `skip` and `step_by` do): it gets
+/// item k of what `next()` would have yielded, and the device sees exactly the same calls.
+pub fn check_nth(st: &mut crate::engine::Stats, order: u64, what: &str, text: &str, sigs: &[Sig], ov: bool, script: &[Step], max_items: usize) {
+    let Ok(tc) = load(text, sigs, DEFAULT_BUDGET) else { return };
+    let mut opts = RunOpts::new(max_items);
+    opts.continue_after_error = true;
+    opts.repeat_last = true;
+    opts.after_end = 1;
+    let plain = run_loaded(&tc, sigs, ov, script, &opts);
+    if plain.init != ObsInit::Ok {
+        return;
+    }
+    for stride in 1..=3usize {
+        let mut o2 = opts.clone();
+        o2.stride = stride;
+        o2.max_next = max_items / (stride + 1);
+        o2.after_end = 0;
+        let strided = run_loaded(&tc, sigs, ov, script, &o2);
+        st.evals += 1;
+        st.nontrivial += 1;
+        st.witness("iterator_advanced_with_nth");
+        let mut bad = None;
+        for (j, it) in strided.items.iter().enumerate() {
+            let k = (stride + 1) * (j + 1) - 1;
+            let want = plain.items.get(k).cloned().unwrap_or(ObsItem::End);
+            if *it != want && !(want == ObsItem::End && *it == ObsItem::End) {
+                bad = Some(format!("call {j} of nth({stride}) returns {}, but item {k} of the run advanced with next() is {}", it.brief(), want.brief()));
+                break;
+            }
+            // the device has seen the same calls as after item k of the plain run
+            let calls_plain = plain.calls_after.get(k + 1).copied().unwrap_or(plain.log.len());
+            let calls_strided = strided.calls_after.get(j + 1).copied().unwrap_or(0);
+            if calls_strided != calls_plain || strided.log[..calls_strided.min(strided.log.len())] != plain.log[..calls_plain.min(plain.log.len())] {
+                bad = Some(format!("after call {j} of nth({stride}) the driver has seen {calls_strided} calls, after item {k} of the run advanced with next() {calls_plain} (or they differ in kind or inputs)"));
+                break;
+            }
+            if want == ObsItem::End {
+                break;
+            }
+        }
+        if let Some(m) = bad {
+            let summary = format!("{what}\nprogram:\n{text}script: {}\n{m}", script.iter().take(6).map(|s| s.json().to_string()).collect::<Vec<_>>().join(" "));
+            st.violation("nth(k) differs from k+1 calls of next()", order << 4 | stride as u64, summary, || dyn_replay(text, sigs, ov, script, &o2, obs_items_brief(&plain), &strided, &m));
+            return;
         }
     }
 }
